@@ -26,6 +26,8 @@ Definition run_csv (op : text) (args : list text) : option text :=
     match args with [cd; bl; cols; f] => Some (opt (p_codec cd) (fun cd => opt (p_bool bl) (fun bl =>
         opt (p_list p_key cols) (fun cols => opt (p_bytes f) (fun f =>
         pr_result pr_str (ipm_to_csv_text 1012 max_vbs_record_length packaged_bit_config cd bl cols f)))))) | _ => Some bad_input end
+  else if text_eqb op (T "csv_limit") then
+    match args with [] => Some (T "OK " ++ pr_N csv_field_limit) | _ => Some bad_input end
   else if text_eqb op (T "key_of_name") then
     match args with [t] => Some (opt (p_str t) (fun t => T "OK " ++ pr_key (key_of_name t))) | _ => Some bad_input end
   else None.
